@@ -12,7 +12,7 @@ COQ_TARGETS = ["Properties/C04.vo"]
 
 RULE = ("case = shape x byte string: valid encodings of random values; truncations at every prefix length and extensions; "
         "single-field corruption of every length / unsized-size / element-count / offset / length-copy / discriminant / bool "
-        "field with values {0,1,field+-1,255,2^16-1,2^31,2^32-1,2^63+1,2^64-1 (as width allows)}; pairs (an offset entry pushed beyond the data + a length/size field enlarged); whole offset tables displaced; random bytes. The input "
+        "field with values {0,1,field+-1,255,2^16-1,2^31,2^32-1,2^63+1,2^64-1 (as width allows)}; pairs (an offset entry pushed beyond the data + a length/size field enlarged; element count and its trailing copy changed consistently); whole offset tables displaced; random bytes. The input "
         "ends exactly at a PROT_NONE page and each case runs in a forked child (SIGSEGV = observation). Observed: outcome "
         "and value of the owned conversion, then the shared view's extent and every element each shared accessor / iterator "
         "yields with an inside-the-input flag. non-trivial = input that is neither a valid encoding nor rejected at the first "
@@ -80,6 +80,31 @@ def gen_cases(rng, tier):
                         b2[opos:opos + ow] = U.le((U.unle(bs[opos:opos + ow]) + odelta) % 2 ** 32, ow)
                         b2[lpos:lpos + lw] = U.le(lval % 256 ** lw, lw)
                         add(idx, desc, b2)
+            # the element count and its trailing copy changed CONSISTENTLY (the len == copy comparison passes, the deeper
+            # checks have to hold on their own): every list of unsized elements of the value
+            ul = [f for f in fields if f[2] == "ulen"]
+            lc = [f for f in fields if f[2] == "lencopy"]
+            if j < 4:
+                for (p1, w1, _), (p2, w2, _) in zip(ul, lc):
+                    cur = U.unle(bs[p1:p1 + w1])
+                    for x in (cur + 1, cur + 2, max(0, cur - 1), 0, 255, 2 ** 16, 2 ** 31, 2 ** 32 - 1):
+                        if x == cur:
+                            continue
+                        b2 = list(bs)
+                        b2[p1:p1 + w1] = U.le(x % 2 ** 32, w1)
+                        # the copy sits after the table the ORIGINAL count describes; a reader that trusts the new count
+                        # looks elsewhere - plant the same value at both places when it fits
+                        b2[p2:p2 + w2] = U.le(x % 2 ** 32, w2)
+                        add(idx, desc, b2)
+                        # ... and at the place where a reader that believes the new count expects the copy
+                        if cur > 0 and x < 64:
+                            esz = (p2 - (p1 + 4)) // cur
+                            q = p1 + 4 + x * esz
+                            if 0 <= q and q + 4 <= len(bs):
+                                b3 = list(bs)
+                                b3[p1:p1 + w1] = U.le(x, w1)
+                                b3[q:q + 4] = U.le(x, 4)
+                                add(idx, desc, b3)
             # a whole offset table displaced (several fields at once): every element lies elsewhere
             offs = [f for f in fields if f[2] == "off"]
             if offs and j < 3:
